@@ -157,6 +157,12 @@ def check(ctx):
     names = [blk["term"][1].get("fname") for f in fam for blk in f["blocks"] if blk["term"][0] == "Call"]
     if "peek_remaining" in names:
         sorted_ = any(n and n.startswith("sort") for n in names)
+        if sorted_:
+            # ... on EVERY path: a sort that is skipped when the snapshot "looks contiguous" or when MAX_STREAMS is small relies on an order the FIFO does not have
+            # (ids come back in drop order) -- for those histories the gap walk lists vacant ids as live
+            rb = Body(fx.fn(kr))
+            sorts = [b for (b, c) in rb.calls if (c.get("fname") or "").startswith("sort")]
+            sorted_ = any(util.on_every_return_path(rb, b) for b in sorts)
         order_free = any(n in ("contains", "any") for n in names) and "binary_search" not in names and not any(n == "next" for n in names)
         ctx.ob("R10.6", f"{kr}|vacant-snapshot-sorted-or-order-free", sorted_ or order_free, f"{fam[0]['file']}:{fam[0]['line']}",
                "the vacant-id snapshot is sorted before it is walked" if sorted_ else ("membership is tested order-independently" if order_free else
